@@ -367,6 +367,39 @@ theorem scatter_filter_map (mask : V3 → Bool) (h : RowFn) : ∀ l : List V3,
     · have hm' : mask p = false := by simpa using hm
       simp [scatter, List.filter, hm', ih]
 
+theorem symmetrizeNeuron_dots_helpers {α β μ} (h : RowFn) (n : Neuron α β μ) (hk : n.kind = Kind.dots)
+    (hu : usesHelpers n.k = true) (v : List V3) (hv : n.vect = some v) (hl : v.length = n.pts.xyz.length) :
+    symmetrizeNeuron (List.map h) n = some { n with
+      pts := n.pts.mapXYZ h
+      vect := some (List.zipWith (fun p w => V3.sub (h p) (h (V3.add p (V3.smul (n.res * 2) w)))) n.pts.xyz v)
+      conns := n.conns.map (Table.mapXYZ h) } := by
+  unfold symmetrizeNeuron
+  have hc := connsIf_eq h n.conns
+  simp only [Table.mapXYZ] at hc
+  simp only [hk, hu, if_true, helperPts, hv, hl, Table.mapXYZ, tangentDirs_helpers, hc]
+
+theorem symmetrizeNeuron_dots_k {α β μ} (h : RowFn) (n : Neuron α β μ) (hk : n.kind = Kind.dots)
+    (hu : usesHelpers n.k = false) :
+    symmetrizeNeuron (List.map h) n = some { n with
+      pts := n.pts.mapXYZ h
+      vect := none
+      alpha := none
+      conns := n.conns.map (Table.mapXYZ h) } := by
+  unfold symmetrizeNeuron
+  have hc := connsIf_eq h n.conns
+  simp only [Table.mapXYZ] at hc
+  simp only [hk, hu, hc, Table.mapXYZ, Bool.false_eq_true, if_false]
+
+theorem symmetrizeNeuron_tree_mesh {α β μ} (h : RowFn) (n : Neuron α β μ) (hk : n.kind ≠ Kind.dots) :
+    symmetrizeNeuron (List.map h) n = some { n with pts := n.pts.mapXYZ h, conns := n.conns.map (Table.mapXYZ h) } := by
+  unfold symmetrizeNeuron
+  have hc := connsIf_eq h n.conns
+  simp only [Table.mapXYZ] at hc
+  cases hkk : n.kind with
+  | dots => exact absurd hkk hk
+  | tree => simp only [hc, Table.mapXYZ]
+  | mesh => simp only [hc, Table.mapXYZ]
+
 /-! ## checker -/
 
 theorem closeRat_zero {a b : Rat} (h : closeRat 0 a b = true) : a = b := by
